@@ -1,5 +1,6 @@
 import Fabio.Lemmas.C20Num
 import Fabio.Lemmas.C20Lex
+import Fabio.Lemmas.C20Log
 /-!
 C20 — access logging is accurate and can never disturb a request: the property theorems.
 
@@ -196,6 +197,30 @@ theorem exactly_one_line_fails_on_empty_rendering :
     ∃ (p : List Item) (e : Event), p ≠ [] ∧ parse "$header.Referer".toList = .ok (.ok p) ∧
       render p e = .ok [] ∧ write p e = .ok [] :=
   ⟨[.header "Referer".toList], {}, by decide, by rfl, by decide, by decide⟩
+
+/-! ## concurrent requests through one logger (`Model/C20Log.lean`) -/
+
+/-- `Log` as micro-steps get; render; lock; write; unlock; put over a pool of shared buffers: for every
+schedule of any number of request threads, every choice `sync.Pool` makes, every assignment of events and
+every renderer, each line that reaches the sink is the rendering of the event whose `Log` call wrote it.
+The pooled buffer is exclusively owned from `get` to `put`, and `put` comes after the write (the order is
+pinned by the regenerated fact `log_call_order_pinned`). -/
+theorem log_lines_intact_any_schedule {Ev : Type} (render : Ev → List Char) (evs : List (List Ev))
+    (sched : List (Nat × Nat)) :
+    Model.C20Log.SinkIntact render (Model.C20Log.run Model.C20Log.goodProg render sched (Model.C20Log.init evs)) :=
+  Lemmas.C20Log.log_lines_intact_any_schedule render evs sched
+
+/-- The order matters: with `put` before `lock` (the buffer handed back while the bytes are still to be
+written) there is a schedule of two requests in which the first request's line is replaced by the second's. -/
+theorem early_put_loses_a_line :
+    ¬ Model.C20Log.SinkIntact Lemmas.C20Log.r1
+      (Model.C20Log.run Model.C20Log.earlyPutProg Lemmas.C20Log.r1 [(0,0),(0,0),(0,0),(1,0),(1,0),(0,0),(0,0)]
+        (Model.C20Log.init [['A'],['B']])) := Lemmas.C20Log.early_put_loses_a_line
+
+/-- a schedule in which both requests overlap (both hold a buffer at once) and both lines arrive intact -/
+example : (Model.C20Log.run Model.C20Log.goodProg Lemmas.C20Log.r1
+      [(0,0),(0,0),(1,0),(1,0),(0,0),(0,0),(0,0),(0,0),(0,0),(1,0),(1,0),(1,0),(1,0),(1,0)]
+      (Model.C20Log.init [['A'],['B']])).sink = [(['A'], 'A'), (['B'], 'B')] := by decide
 
 /-! ## non-vacuity -/
 
